@@ -17,7 +17,7 @@ HERE = pathlib.Path(__file__).resolve().parents[1]
 sys.path.insert(0, str(HERE))
 from pvx.core.source import Repo              # noqa: E402
 from pvx.core import report                   # noqa: E402
-from pvx.cli import analysis_problems         # noqa: E402
+from pvx.cli import analysis_problems, new_guard_rule         # noqa: E402
 
 PROPS = [f"C{i:02d}" for i in range(1, 21)]
 
@@ -58,6 +58,7 @@ def one(job):
         ctx = report.Ctx(r2, p, "quick")
         try:
             mod.run(ctx)
+            new_guard_rule(ctx, p)
         except Exception as e:
             out.append((p, f"ANALYSIS-ERROR {type(e).__name__}: {e}"))
             continue
